@@ -143,7 +143,19 @@ func runOne(t *testing.T, tr *drv.Tracer, sid int, sched []drv.Step) bool {
 		case "Advance":
 			by := drv.Num(st["by"])
 			clk.Advance(time.Duration(by) * unit)
-			settle()
+			if b, _ := st["quiet"].(bool); b {
+				// Time passes while the run goroutine sits in its select and NOTHING is sent to it: Advance has fired (and
+				// removed) the elapsed timer synchronously, so "one waiter" again means that every due fire has been handled
+				// and the next timer is armed; when nothing was due the goroutine is not woken at all (a sentinel Add would
+				// wake it and refresh whatever it remembers from its last iteration).
+				wctx, wcancel := context.WithTimeout(ctx, 5*time.Second)
+				if err := clk.BlockUntilContext(wctx, 1); err != nil {
+					hung = true
+				}
+				wcancel()
+			} else {
+				settle()
+			}
 			tr.Emit(drv.Step{"ev": "Advance", "by": by})
 		case "Read":
 			select {
